@@ -3,6 +3,7 @@ package checks
 import (
 	"bytes"
 	"fmt"
+	"math"
 	"os"
 	"path/filepath"
 	"strconv"
@@ -118,6 +119,10 @@ func runC11(c *vf.Case) {
 		case 7:
 			return size
 		case 8:
+			if r.Chance(1, 3) {
+				// amounts whose sum with the used or free space overflows the machine integer
+				return math.MaxInt - []int{0, 1, used, size - used, size}[r.Intn(5)]
+			}
 			return 2 * size
 		default:
 			return r.Intn(avail + 2)
@@ -294,7 +299,7 @@ func init() {
 	register(&vf.Check{
 		ID:        "C11",
 		Technique: "reference-model monitor (ring positions as plain integers) over random Claim/Commit/Consume/Reset histories for every accepted size class; physical read-back through a window on the first mapping; /proc/self/maps, /dev/shm and fd census after Destroy; checkptr build",
-		Rule: "cases = (requested size from {1,4095,4096,4097,2..8,12,16,31,32 pages,10000,100000}, chosen round-robin by case index) x random history of 50-500 Claim/Commit/Consume/Reset with amounts from {0,1,page-1,page,avail-1,avail,avail+1,size,2*size,random}, each ending in Destroy; " +
+		Rule: "cases = (requested size from {1,4095,4096,4097,2..8,12,16,31,32 pages,10000,100000}, chosen round-robin by case index) x random history of 50-500 Claim/Commit/Consume/Reset with amounts from {0,1,page-1,page,avail-1,avail,avail+1,size,2*size,MaxInt-{0,1,used,free,size},random}, each ending in Destroy; " +
 			"non-trivial = the commits wrapped around the ring end at least once on that size; distinct = (size, call-sequence shape)",
 		Assumptions: []string{
 			"amounts are non-negative",
